@@ -514,23 +514,25 @@ func (obj *Package) Unexport(name string) {
 	name = strings.ToLower(name)
 	obj.mu.Lock()
 	// TBD remove from Exports list
+	// Only the package's own definitions are changed. An inherited name is
+	// not external in this package and stays exported by its owner.
 	fi := obj.funcs[name]
+	if fi != nil && fi.Pkg != obj {
+		fi = nil
+	}
 	if fi != nil {
 		fi.Export = false
 	}
 	vv := obj.vars[name]
+	if vv != nil && vv.Pkg != obj {
+		vv = nil
+	}
 	if vv != nil {
 		vv.Export = false
 	}
 	users := append([]*Package{}, obj.Users...)
 	obj.mu.Unlock()
-	if (fi != nil && fi.Pkg == obj) || (vv != nil && vv.Pkg == obj) {
-		if fi != nil && fi.Pkg != obj {
-			fi = nil
-		}
-		if vv != nil && vv.Pkg != obj {
-			vv = nil
-		}
+	if fi != nil || vv != nil {
 		retract(users, name, vv, fi)
 	}
 }
